@@ -426,7 +426,8 @@ pub fn pp_fields(pp: &PPx) -> Vec<(&'static str, u64)> {
     match pp {
         PPx::Byron(p) => vec![("summand", p.summand), ("multiplier", p.multiplier), ("max_tx_size", p.max_tx_size)],
         PPx::Shelley(p) => vec![("minfee_a", p.minfee_a as u64), ("minfee_b", p.minfee_b as u64), ("max_tx_size", p.max_transaction_size as u64),
-            ("min_utxo_value", p.min_utxo_value), ("key_deposit", p.key_deposit), ("pool_deposit", p.pool_deposit)],
+            ("min_utxo_value", p.min_utxo_value), ("key_deposit", p.key_deposit), ("pool_deposit", p.pool_deposit),
+            ("min_pool_cost", p.min_pool_cost), ("maximum_epoch", p.maximum_epoch)],
         PPx::Alonzo(p) => post!(p), PPx::Babbage(p) => post!(p), PPx::Conway(p) => post!(p),
         _ => vec![],
     }
@@ -438,7 +439,7 @@ pub fn pp_set(pp: &mut PPx, k: &str, v: u64) {
     match pp {
         PPx::Byron(p) => match k { "summand" => p.summand = v, "multiplier" => p.multiplier = v, "max_tx_size" => p.max_tx_size = v, _ => {} },
         PPx::Shelley(p) => match k { "minfee_a" => p.minfee_a = v as u32, "minfee_b" => p.minfee_b = v as u32, "max_tx_size" => p.max_transaction_size = v as u32,
-            "min_utxo_value" => p.min_utxo_value = v, "key_deposit" => p.key_deposit = v, "pool_deposit" => p.pool_deposit = v, _ => {} },
+            "min_pool_cost" => p.min_pool_cost = v, "maximum_epoch" => p.maximum_epoch = v, "min_utxo_value" => p.min_utxo_value = v, "key_deposit" => p.key_deposit = v, "pool_deposit" => p.pool_deposit = v, _ => {} },
         PPx::Alonzo(p) => post!(p), PPx::Babbage(p) => post!(p), PPx::Conway(p) => post!(p),
         _ => {}
     }
@@ -455,8 +456,9 @@ pub fn scen_text(s: &Scen, fixture: &str) -> String {
     } else { hx(&s.tx_bytes()) };
     let utxo = s.utxo.iter().map(|e| format!("{}#{}:{}:{}:{}", hx(&e.hash), e.ix, era_name(e.era), if e.byron_key { 1 } else { 0 }, hx(&e.out))).collect::<Vec<_>>().join(",");
     let pp = pp_fields(&s.env.pp).iter().map(|(k, v)| format!("{}={}", k, v)).collect::<Vec<_>>().join(";");
-    format!("SCEN fixture={} tx={} utxo={} slot={} netid={} magic={} acnt={} pp={} counts={}", fixture, tx, utxo, s.env.slot, s.env.netid, s.env.magic,
-            s.env.acnt.map(|(a, b)| format!("{}/{}", a, b)).unwrap_or("none".into()), pp, s.counts.map(|(a, b, c)| format!("{}/{}/{}", a, b, c)).unwrap_or("none".into()))
+    format!("SCEN fixture={} tx={} utxo={} slot={} netid={} magic={} acnt={} pp={} counts={} cs={}", fixture, tx, utxo, s.env.slot, s.env.netid, s.env.magic,
+            s.env.acnt.map(|(a, b)| format!("{}/{}", a, b)).unwrap_or("none".into()), pp, s.counts.map(|(a, b, c)| format!("{}/{}/{}", a, b, c)).unwrap_or("none".into()),
+            if matches!(s.fam, Fam::AC(Era::Shelley) | Fam::AC(Era::Allegra) | Fam::AC(Era::Mary)) { super::vcert::cs_text(&s.cs) } else { "base".to_string() })
 }
 pub fn scen_parse(line: &str, base: &[(&'static str, Scen)], clone: &dyn Fn(&Scen) -> Scen) -> Option<(&'static str, Scen)> {
     let start = line.find("SCEN fixture=")?;
@@ -491,6 +493,7 @@ pub fn scen_parse(line: &str, base: &[(&'static str, Scen)], clone: &dyn Fn(&Sce
     s.env.slot = kv.get("slot")?.parse().ok()?; s.env.netid = kv.get("netid")?.parse().ok()?; s.env.magic = kv.get("magic")?.parse().ok()?;
     let ac = kv.get("acnt")?;
     s.env.acnt = if ac == "none" { None } else { let (a, b) = ac.split_once('/')?; Some((a.parse().ok()?, b.parse().ok()?)) };
+    if let Some(c) = kv.get("cs") { if c != "base" { s.cs = super::vcert::cs_parse(c)? } }
     if let Some(c) = kv.get("counts") { if c != "none" { let v: Vec<u64> = c.split('/').filter_map(|x| x.parse().ok()).collect(); if v.len() == 3 { s.counts = Some((v[0], v[1], v[2])) } } }
     if let Some(pp) = kv.get("pp") { for f in pp.split(';') { if let Some((k, v)) = f.split_once('=') { pp_set(&mut s.env.pp, k, v.parse().ok()?) } } }
     Some((bn, s))
